@@ -196,6 +196,19 @@ type candidate struct {
 
 func classify(o *outcome) *candidate {
 	tam := o.sc.Kind
+	vs := o.early
+	if o.res != nil && len(o.res.Violations) > len(vs) {
+		vs = o.res.Violations
+	}
+	if len(vs) > 0 {
+		// a safety violation is printed the moment it happens, also when the process dies afterwards
+		v := vs[0]
+		sig := map[string]string{"kind": v.Kind, "tamper": tam, "site": "blockchain.BlockchainReactor.poolRoutine"}
+		if v.Field != "" {
+			sig["field"] = v.Field
+		}
+		return &candidate{sig: sig, detail: fmt.Sprintf("scenario %s: %s", o.sc, v.Detail)}
+	}
 	if o.died {
 		site := o.panicSite
 		if site == "" {
@@ -208,21 +221,9 @@ func classify(o *outcome) *candidate {
 		return &candidate{sig: map[string]string{"kind": "crash", "site": site, "via": via, "tamper": tam},
 			detail: fmt.Sprintf("the syncing process died in scenario %s: %s (innermost repository frame %s, goroutine %s)", o.sc, o.panicLine, site, via)}
 	}
-	vs := o.early
-	if o.res != nil && len(o.res.Violations) > len(vs) {
-		vs = o.res.Violations
-	}
-	if len(vs) > 0 {
-		v := vs[0]
-		sig := map[string]string{"kind": v.Kind, "tamper": tam, "site": "blockchain.BlockchainReactor.poolRoutine"}
-		if v.Field != "" {
-			sig["field"] = v.Field
-		}
-		return &candidate{sig: sig, detail: fmt.Sprintf("scenario %s: %s", o.sc, v.Detail)}
-	}
 	if o.res != nil && o.res.Outcome == "stall" {
 		return &candidate{sig: map[string]string{"kind": "liveness-stall", "tamper": tam, "site": "blockchain.BlockPool"},
-			detail: fmt.Sprintf("scenario %s: an honest peer serving the whole chain stayed connected, but the node applied no block for the stall window and never caught up (store height %d, applied %v, peers known to the pool %v)", o.sc, o.res.StoreHeight, o.res.Applied, o.res.PoolPeers)}
+			detail: fmt.Sprintf("scenario %s: an honest peer serving the whole chain stayed connected (reconnecting when dropped), but the node applied no block for the stall window and never caught up (store height %d, applied %v, peers known to the pool %v)", o.sc, o.res.StoreHeight, o.res.Applied, o.res.PoolPeers)}
 	}
 	return nil
 }
